@@ -86,6 +86,43 @@ def check(ctx):
         all(v == {()} for k, v in rows.items() if k not in ("String", "Number"))
     ctx.require(ok, "R-TABLE", "select_by_jvalue", "String -> field name; Number -> index via try_number_to_u32; other kinds -> error", "select_by_jvalue table is %s" % {k: sorted(v) for k, v in rows.items()},
                 sample={"table": {k: sorted(map(list, v)) for k, v in rows.items()}})
+    # a scalar used as accessor selects the same way whatever kind of scalar it is: both arms of select_by_scalar (a plain
+    # value, a fold iterator's current element) go through select_by_jvalue (string -> field, number -> index)
+    ctx.clause("R-SIBLING select_by_scalar: plain scalars and fold iterators both select through select_by_jvalue")
+    ss = F.fn("lambda_applier::utils::select_by_scalar")
+    rows = {}
+    for st in lib.enumerate_paths(ss, max_paths=20000):
+        var = [v for k, v in st.variants.items() if v in ("Value", "IterableValue")]
+        hs = tuple(sorted({c.path.split("::")[-1] for c in st.calls if c.path.endswith(("select_by_jvalue", "try_jvalue_with_idx", "try_jvalue_with_field_name", "try_scalar_ref_as_idx"))}))
+        if var:
+            rows.setdefault(var[0], set()).add(hs)
+    ctx.require(rows == {"Value": {("select_by_jvalue",)}, "IterableValue": {("select_by_jvalue",)}}, "R-SIBLING", "select_by_scalar:arms", "Value and IterableValue both -> select_by_jvalue",
+                "select_by_scalar dispatch is %s: a fold iterator used as accessor no longer selects like a plain scalar (string keys / numeric indices)" % {k: sorted(v) for k, v in rows.items()},
+                sample={"table": {k: sorted(map(list, v)) for k, v in rows.items()}})
+    # canon-map keys: the three ways a key is made (from an owned value, from a borrowed value, from a literal index) must
+    # classify a number alike, or a key stored one way is never found when looked up the other way.  A non-negative integer
+    # satisfies both is_i64 and is_u64, so the ORDER of the two guards decides the representation.
+    ctx.clause("R-SIBLING StreamMapKey: from_value and from_value_ref test is_i64 before is_u64 alike; literal indices (From<u32>) are I64")
+    orders = {}
+    for nm in ("from_value", "from_value_ref"):
+        kf = F.fn("stream_map_key::StreamMapKey::" + nm)
+        first = {}
+        for st in lib.enumerate_paths(kf, max_paths=20000):
+            guards = [c.path.split("::")[-1] for c in st.calls if c.path.endswith(("Number::is_i64", "Number::is_u64"))]
+            built = [s_["rv"]["variant"] for bb in st.blocks for s_ in kf.blocks[bb]["stmts"] if "lhs" in s_ and s_["rv"]["k"] == "agg" and s_["rv"].get("kind") == "adt" and s_["rv"]["adt"].endswith("StreamMapKey")]
+            if guards and built:
+                first.setdefault(built[-1], set()).add(tuple(guards))
+        orders[nm] = {k: sorted(v) for k, v in first.items()}
+    want_o = {"I64": [("is_i64",)], "U64": [("is_i64", "is_u64")]}
+    ctx.require(orders.get("from_value") == want_o and orders.get("from_value_ref") == want_o, "R-SIBLING", "map-key:number-classification",
+                "both constructors: is_i64 first -> I64, else is_u64 -> U64", "StreamMapKey number classification differs or changed: %s (expected %s for both): a numeric key read from a scalar is represented differently from the stored key and never matches" % (orders, want_o),
+                sample={"orders": {k: {kk: [list(x) for x in vv] for kk, vv in v.items()} for k, v in orders.items()}})
+    fu = [f_ for f_ in F.impl_fns("convert::From", "StreamMapKey", "from") if "<u32>" in (F.impl_of(f_).get("trait") or "")]
+    oku = len(fu) == 1
+    if oku:
+        e_ = Prov(fu[0]).local(0)
+        oku = e_[0] == "agg" and e_[2] == "I64"
+    ctx.require(oku, "R-SIBLING", "map-key:literal-index", "a literal index becomes I64 (like a stored non-negative key)", "From<u32> for StreamMapKey no longer builds I64")
     fl = F.fn("lambda_applier::applier::select_by_functor_from_scalar")
     flp = Prov(fl)
     names = [c.path for c in fl.calls]
